@@ -205,7 +205,13 @@ pub fn timing_replay(args: &Args, s: &mut Summary) {
             let mut probs = c04_problems(&enc);
             probs.extend(c04_counts(&m1, &m2));
             if !probs.is_empty() {
-                s.mismatch("rejects-own-output:timing", json!({"text": text, "problems": probs}));
+                // two timing points at different times closer than f64::EPSILON are written as two lines, which the decoder
+                // merges into one group: the known shape of C02, here seen as a lost timing point
+                let tp = &m1.control_points.timing_points;
+                let sub_eps = tp.windows(2).filter(|w| (w[1].time - w[0].time).abs() < f64::EPSILON).count();
+                let only_count = probs.iter().all(|p| p.starts_with("timing points "));
+                let sig = if only_count && sub_eps > 0 && m2.control_points.timing_points.len() + sub_eps == tp.len() { "timing-points-merged:sub-epsilon-times" } else { "rejects-own-output:timing" };
+                s.mismatch(sig, json!({"text": text, "problems": probs}));
             }
         } else {
             let d = c02_diffs(&m1, &m2);
@@ -218,5 +224,65 @@ pub fn timing_replay(args: &Args, s: &mut Summary) {
             }
         }
         s.sample(json!({"text": text, "encoded_timing_points": block}));
+    });
+}
+
+// ---------------------------------------------------------------------------
+// SampleCodec: the hit-sound byte and bank info the encoder writes for an object, and what a second
+// decode makes of them (names and banks), for every bank info x hit-sound byte x sample point x mania.
+pub fn sample_replay(args: &Args, s: &mut Summary) {
+    use rosu_map::section::hit_objects::hit_samples::{HitSampleDefaultName, HitSampleInfo, HitSampleInfoName};
+    let mut rng = Rng::new(args.seed);
+    fn nb(v: &[HitSampleInfo]) -> Value {
+        Value::Array(v.iter().map(|x| {
+            let (n, f) = match &x.name {
+                HitSampleInfoName::Default(HitSampleDefaultName::Normal) => ("normal", String::new()),
+                HitSampleInfoName::Default(HitSampleDefaultName::Whistle) => ("whistle", String::new()),
+                HitSampleInfoName::Default(HitSampleDefaultName::Finish) => ("finish", String::new()),
+                HitSampleInfoName::Default(HitSampleDefaultName::Clap) => ("clap", String::new()),
+                HitSampleInfoName::File(f) => ("file", f.clone()),
+            };
+            json!([n, x.bank as i32, f])
+        }).collect())
+    }
+    args.for_each_case(|_, c| {
+        s.cases += 1;
+        let bi = crate::hitobj::spell_bi(&c["bi"], &mut Rng::new(0)).replace(' ', "");
+        let sp = &c["sp"];
+        let mania = getb(&c, "mania");
+        let sound = geti(&c, "sound");
+        let text = format!("osu file format v14\n\n[General]\nMode: {}\n\n[TimingPoints]\n0,500,4,{},{},{},1,0\n\n[HitObjects]\n{},192,1000,1,{sound},{bi}\n",
+                           if mania { 3 } else { *rng.pick(&[0, 1, 2]) }, geti(sp, "bank"), geti(sp, "custom"), geti(sp, "vol"), if mania { 256 } else { 100 });
+        if sound != 0 || geti(&c["bi"], "n") > 0 {
+            s.nontrivial_key(&format!("{}|{}|{}", c["bi"], sound, mania));
+        }
+        let r = guarded(&format!("samplecodec {text:?}"), || roundtrip(&text));
+        s.checks += 3;
+        match r {
+            Err(p) => s.mismatch("panic", json!({"text": text, "panic": p})),
+            Ok(Err(e)) => s.mismatch("roundtrip-step-failed", json!({"text": text, "err": e})),
+            Ok(Ok((m1, enc, m2))) => {
+                let (Some(o1), Some(o2)) = (m1.hit_objects.first(), m2.hit_objects.first()) else {
+                    s.mismatch("object-lost", json!({"text": text, "encoded": enc}));
+                    return;
+                };
+                let line = enc.lines().skip_while(|l| *l != "[HitObjects]").nth(1).unwrap_or("").to_string();
+                let f: Vec<&str> = line.splitn(6, ',').collect();
+                let e = &c["einfo"];
+                let want_info = format!("{}:{}:{}:{}:{}", geti(e, "b1"), geti(e, "b2"), geti(e, "cu"), geti(e, "vo"), gets(e, "fn"));
+                if nb(&o1.samples) != c["m1"] {
+                    // decoding itself is C14's / C15's subject: nothing to say about the codec then
+                } else if f.len() < 6 || f[4] != geti(&c, "esnd").to_string() || f[5] != want_info {
+                    s.mismatch("sample-encoder-differs", json!({"text": text, "line": line, "want_sound": c["esnd"], "want_info": want_info}));
+                } else if nb(&o2.samples) != c["m2"] {
+                    s.mismatch("sample-redecode-differs", json!({"text": text, "line": line, "got": nb(&o2.samples), "want": c["m2"]}));
+                } else if nb(&o2.samples) != nb(&o1.samples) {
+                    s.mismatch("sample-names-banks-lost", json!({"text": text, "line": line, "before": nb(&o1.samples), "after": nb(&o2.samples)}));
+                }
+                if s.samples.len() < 3 {
+                    s.sample(json!({"text": text, "line": line}));
+                }
+            }
+        }
     });
 }
